@@ -105,7 +105,9 @@ CLAIMS = {
     "C16": ("Builder::build's validation restated and checked against the real build(); every accepted configuration can "
             "execute a send step and a publish without reaching unimplemented!() / underflow, and every emitted ttl "
             "satisfies the aggregator's indexing contract; Channel::dispatch_tcp_probe never panics for any number of "
-            "outstanding TCP probes.", "CLI > file > default precedence (trippy-tui, clap/TOML) is not encodable: not claimed."),
+            "outstanding TCP probes; the round-to-round step (advance_round), the next-probe step and the Dublin/IPv6 payload "
+            "slice keep / rely on the representation invariant for every accepted configuration, so no later round can "
+            "index out of range either.", "CLI > file > default precedence (trippy-tui, clap/TOML) is not encodable: not claimed."),
     "C19": ("nat_status truth table for all 2^16 x 2^16 x Option<2^16> inputs; checksums are produced only for Dublin/IPv4 "
             "UDP; the expected checksum computed on receipt equals the checksum dispatch put on the wire.",
             "Per-round carry-forward inside update_for_probe is outside reach (read)."),
